@@ -1,3 +1,4 @@
+import NeverModel.Model.Index
 /-
 M-Src — source-level reference evaluator of the modelled core of Never (C02, C08).
 
@@ -36,6 +37,7 @@ def Exc.ofName : String → Option Exc
 parameter passing / return / element and field initialisation; default cells of `{[n]} : T`) -/
 inductive Ty
   | bool | int | long | float | double | char | string | enumT | arr | rcd | func
+  | rng | slc          -- `[..] : range`, `[..] : T` (slice)
   deriving DecidableEq, Repr, Inhabited
 
 inductive Lit
@@ -91,6 +93,9 @@ inductive Expr
   | matchE (e : Expr) (guards : List Guard)
   | ifLet (g : Guard) (e : Expr) (els : Expr)  -- guard body = then-branch
   | listcomp (body : Expr) (quals : List Qual) (ty : Ty)
+  | range (bounds : List Expr)               -- `[f1 .. t1, f2 .. t2]`: bounds = f1, t1, f2, t2 (source order)
+  | slice (a : Expr) (bounds : List Expr)    -- `a[f1 .. t1, …]` on an array, a slice, a range or a string
+  | pipe (l : Expr) (f : Expr) (args : List Expr)   -- `l |> f(args)` = `f(l, args)`; a tuple `l` is unpacked
 inductive Item
   | bind (isVar : Bool) (x : Name) (e : Expr)
   | funcs (fs : List Func)                   -- a maximal run of consecutive function items
@@ -173,10 +178,11 @@ def fvE (bound : List Name) (acc : List Name) : Expr → List Name
   | .for i c s b => fvE bound (fvE bound (fvE bound (fvE bound acc i) c) s) b
   | .forIn x coll b => fvE (x :: bound) (fvE bound acc coll) b
   | .call f args => fvE bound (fvEs bound acc args) f
+  | .pipe l f args => fvE bound (fvE bound (fvEs bound acc args) l) f
   | .builtin _ args | .arrLit _ args _ | .arrNew args _ | .record _ args | .tuple args
-  | .enumRec _ _ args => fvEs bound acc args
+  | .enumRec _ _ args | .range args => fvEs bound acc args
   | .lam fn => fvF bound acc fn
-  | .index a idx => fvEs bound (fvE bound acc a) idx
+  | .index a idx | .slice a idx => fvEs bound (fvE bound acc a) idx
   | .field e _ => fvE bound acc e
   | .matchE e gs => fvGuards bound (fvE bound acc e) gs
   | .ifLet g e els => fvE bound (fvGuard bound (fvE bound acc e) g) els
@@ -228,6 +234,10 @@ inductive Val
   | clo (c : Option (Nat × List Loc))       -- function id, cells of the defining environment
   | arrObj (dims : List Nat) (elems : Array Loc)
   | recObj (tag : Name) (fields : Array Loc)
+  | rng (r : Option Loc)                    -- reference to a `rngObj`
+  | slc (r : Option Loc)                    -- reference to a `slcObj`
+  | rngObj (bounds : Array Loc)             -- the CELLS from1, to1, from2, to2, … (those the bound expressions evaluated to: shared)
+  | slcObj (arr : Loc) (rng : Loc)          -- a slice: the array OBJECT and the range OBJECT
   deriving Inhabited
 
 abbrev Env := List (Name × Loc)
@@ -553,6 +563,8 @@ def defaultVal : Ty → Val
   | .arr => .arr none
   | .rcd => .rcd none
   | .func => .clo none
+  | .rng => .rng none
+  | .slc => .slc none
 
 /-- the cell to bind/store for a value of declared type `t`: the same cell unless a numeric
 conversion applies (then a fresh cell) -/
@@ -615,6 +627,178 @@ def arrDeref (va : Val) (idx : List Int) : M Loc := do
       | none => throwE .index_out_of_bounds
     | _ => stuck "array reference to a non-array"
   | _ => stuck "indexing a non-array"
+
+/-! ### ranges and slices (`vm_execute_mk_range`, `vm_get_slice_range`, `vm_execute_slice_*`, `*_deref`)
+
+A range object holds the CELLS its bound expressions evaluated to (`MK_RANGE` stores the addresses found on the
+stack): `var n = 3; let r = [0 .. n]; n = 5` makes `r` the range `[0 .. 5]`.  A slice holds the array OBJECT (not the
+reference cell it was taken from) and a range object.  The index arithmetic is `Never.Idx` (Model/Index.lean, C12). -/
+
+def inInt32 (i : Int) : Bool := decide (-2147483648 ≤ i) && decide (i ≤ 2147483647)
+
+def pairUp : List Int → List (Int × Int)
+  | a :: b :: rest => (a, b) :: pairUp rest
+  | _ => []
+
+def unpair : List (Int × Int) → List Int
+  | [] => []
+  | (a, b) :: rest => a :: b :: unpair rest
+
+def allocInts : List Int → M (List Loc)
+  | [] => pure []
+  | i :: is => do
+    let l ← alloc (.int (Int32.ofInt i))
+    let r ← allocInts is
+    pure (l :: r)
+
+/-- the current values of the bound cells of range object `o`, one (from, to) pair per dimension -/
+def rngBounds (o : Loc) : M (List (Int × Int)) := do
+  match (← load o) with
+  | .rngObj bs => do
+    let is ← getInts bs.toList
+    pure (pairUp is)
+  | _ => stuck "range reference to a non-range"
+
+/-- `vm_get_slice_range` on C `int`s: positions `c`, `d` of the range `[a..b]`.  Negative positions and positions
+beyond `b` raise `index_out_of_bounds`; where the C additions `a ± c`, `a ± d` leave `int` the run is flagged -/
+def sliceRangeM (a b c d : Int) : M (Int × Int) :=
+  if c < 0 ∨ d < 0 then throwE .index_out_of_bounds
+  else if !(inInt32 (a + c) && inInt32 (a + d) && inInt32 (a - c) && inInt32 (a - d)) then
+    stopM (.crash "range arithmetic overflows int")
+  else
+    match Idx.sliceRange a b c d with
+    | some r => pure r
+    | none => throwE .index_out_of_bounds
+
+/-- `[a1..b1, …][c1..d1, …]` dimension by dimension -/
+def composeDims : List (Int × Int) → List (Int × Int) → M (List (Int × Int))
+  | [], [] => pure []
+  | (a, b) :: r1, (c, d) :: r2 => do
+    let x ← sliceRangeM a b c d
+    let rest ← composeDims r1 r2
+    pure (x :: rest)
+  | _, _ => stuck "range dimension mismatch"
+
+/-- a fresh range object with fresh bound cells -/
+def allocRng (ps : List (Int × Int)) : M Loc := do
+  let ls ← allocInts (unpair ps)
+  alloc (.rngObj ls.toArray)
+
+/-- `v[f1 .. t1, …]` where `rb` is the range object just built from the bound cells.
+array: no check at all (`SLICE_ARRAY`), the slice aliases the array object; range / slice: composition, fresh bound
+cells; string: a new string (`SLICE_STRING`, descending bounds reverse) -/
+def sliceOf (v : Val) (rb : Loc) : M Loc :=
+  match v with
+  | .arr none | .rng none | .slc none | .str none => throwE .nil_pointer
+  | .arr (some ao) => do
+    let s ← alloc (.slcObj ao rb)
+    alloc (.slc (some s))
+  | .rng (some ro) => do
+    let r1 ← rngBounds ro
+    let r2 ← rngBounds rb
+    let r ← composeDims r1 r2
+    let o ← allocRng r
+    alloc (.rng (some o))
+  | .slc (some so) => do
+    match (← load so) with
+    | .slcObj ao ro => do
+      let r1 ← rngBounds ro
+      let r2 ← rngBounds rb
+      let r ← composeDims r1 r2
+      let o ← allocRng r
+      let s ← alloc (.slcObj ao o)
+      alloc (.slc (some s))
+    | _ => stuck "slice reference to a non-slice"
+  | .str (some bs) => do
+    match (← rngBounds rb) with
+    | [(fr, t)] =>
+      match Idx.sliceString bs fr t with
+      | some r => alloc (.str (some r))
+      | none => throwE .index_out_of_bounds
+    | _ => stuck "string slice arity"
+  | _ => stuck "slice of something that is not an array, range, slice or string"
+
+/-- position `i_k` of dimension `k` of a range, for every dimension -/
+def rangePositions : List (Int × Int) → List Int → M (List Int)
+  | [], [] => pure []
+  | (a, b) :: rs, i :: is => do
+    let x ← sliceRangeM a b i i
+    let rest ← rangePositions rs is
+    pure (x.1 :: rest)
+  | _, _ => stuck "range index arity"
+
+/-- `r[i1, …, in]` on a range: a fresh 1-dimensional int array holding the n positions (`RANGE_DEREF`) -/
+def rangeDeref (r : Option Loc) (idx : List Int) : M Loc :=
+  match r with
+  | none => throwE .nil_pointer
+  | some o => do
+    let bs ← rngBounds o
+    let vs ← rangePositions bs idx
+    let cells ← allocInts vs
+    let ao ← alloc (.arrObj [vs.length] cells.toArray)
+    alloc (.arr (some ao))
+
+/-- `s[i1, …, in]` on a slice: the element CELL of the underlying array (`SLICE_DEREF`) -/
+def sliceDeref (r : Option Loc) (idx : List Int) : M Loc :=
+  if idx.any (· < 0) then throwE .index_out_of_bounds else
+  match r with
+  | none => throwE .nil_pointer
+  | some so => do
+    match (← load so) with
+    | .slcObj ao ro => do
+      let bs ← rngBounds ro
+      let vs ← rangePositions bs idx
+      arrDeref (.arr (some ao)) vs
+    | _ => stuck "slice reference to a non-slice"
+
+/-- start of a loop over a 1-dimensional range object: (counter := from, ascending := from < to, the cell of `to`).
+The range object is looked at once; `to` is re-read before every iteration -/
+def rngLoopInit (ro : Loc) : M (Int × Bool × Loc) := do
+  match (← load ro) with
+  | .rngObj bs =>
+    if bs.size ≠ 2 then stuck "loop over a range that is not 1-dimensional" else
+    match bs[0]?, bs[1]? with
+    | some lf, some lt => do
+      let a ← getInt lf
+      let b ← getInt lt
+      pure (a, decide (a < b), lt)
+    | _, _ => stuck "range without bounds"
+  | _ => stuck "range reference to a non-range"
+
+def inRange (asc : Bool) (cur t : Int) : Bool := if asc then decide (cur ≤ t) else decide (t ≤ cur)
+
+def stepRange (asc : Bool) (cur : Int) : Int := if asc then cur + 1 else cur - 1
+
+/-- the cell the loop variable is bound to: a fresh int (range), the element cell of the array object (slice) -/
+def rngElem (ao : Option Loc) (cur : Int) : M Loc :=
+  match ao with
+  | none => alloc (.int (Int32.ofInt cur))
+  | some a => arrDeref (.arr (some a)) [cur]
+
+/-- what a loop / generator over the collection in cell `lc` runs on: `none` = an array (loops by index),
+`some (array object?, from, ascending, cell of to)` = a range or a slice -/
+def slcLoopInit (so : Loc) : M (Option Loc × Int × Bool × Loc) := do
+  match (← load so) with
+  | .slcObj ao ro => do
+    let r ← rngLoopInit ro
+    pure (some ao, r)
+  | _ => stuck "slice reference to a non-slice"
+
+/-- values bound to the names of a slice parameter `s[f1 .. t1, …]`: `f_k` = 0, `t_k` = |to − from| (`ID_DIM_SLICE`) -/
+def sliceDimVals : List (Int × Int) → List Int
+  | [] => []
+  | (a, b) :: rest => 0 :: (if b > a then b - a else a - b) :: sliceDimVals rest
+
+/-- the leading arguments a piped value contributes: a tuple is unpacked into its component CELLS (`RECORD_UNPACK`),
+anything else is one argument -/
+def pipeArgs (l : Loc) : M (List Loc) := do
+  match (← load l) with
+  | .rcd (some o) =>
+    match (← load o) with
+    | .recObj tag fields => if tag = "" then pure fields.toList else pure [l]
+    | _ => stuck "record reference to a non-record"
+  | .rcd none => stopM (.crash "pipe of nil: a nil tuple raises nil_pointer, a nil record is passed on; the value does not say which")
+  | _ => pure [l]
 
 /-! ### declarations context -/
 
@@ -702,6 +886,8 @@ def assignVal (vl vr : Val) : M Val :=
   | .arr _, .arr none => throwE .nil_pointer
   | .arr _, .arr r => pure (.arr r)
   | .rcd _, .rcd r => pure (.rcd r)
+  | .rng _, .rng r => pure (.rng r)
+  | .slc _, .slc r => pure (.slc r)
   | .clo _, .clo none => throwE .nil_pointer
   | .clo _, .clo c => pure (.clo c)
   | .char _, .char c => pure (.char c)
@@ -731,8 +917,45 @@ def arrDims (l : Loc) : M (List Nat) := do
   | .arr none => pure []
   | _ => stuck "array parameter is not an array"
 
-/-- bind the parameters (converted to their declared scalar types) and, for array
-parameters, the extent names (fresh int cells) — innermost = last parameter -/
+/-- bind names to cells in order (innermost = last); missing cells are cell 0 -/
+def bindNames : List Name → List Loc → Env → Env
+  | [], _, env => env
+  | x :: xs, [], env => bindNames xs [] ((x, 0) :: env)
+  | x :: xs, l :: ls, env => bindNames xs ls ((x, l) :: env)
+
+/-- the bound cells of range object `o` -/
+def rngCells (o : Loc) : M (List Loc) := do
+  match (← load o) with
+  | .rngObj bs => pure bs.toList
+  | _ => stuck "range reference to a non-range"
+
+/-- fresh int cells for the bound names of a slice parameter -/
+def slcDimCells (so : Loc) : M (List Loc) := do
+  match (← load so) with
+  | .slcObj _ ro => do
+    let r ← rngBounds ro
+    allocInts (sliceDimVals r)
+  | _ => stuck "slice reference to a non-slice"
+
+def bindDimsCells (ds : List Name) (m : M (List Loc)) (env : Env) : M Env := do
+  let cells ← m
+  pure (bindNames ds cells env)
+
+def bindDimsArr (ds : List Name) (l : Loc) (env : Env) : M Env := do
+  let dims ← arrDims l
+  bindDims ds dims env
+
+/-- the names a parameter declares besides its own: `a[D1, D2]` — fresh int cells holding the extents;
+`r[f .. t] : range` — the range's OWN bound cells; `s[f .. t] : T` — fresh int cells 0 and |to − from| -/
+def bindDimsOf (ds : List Name) (l : Loc) (env : Env) : M Env := do
+  match (← load l) with
+  | .rng (some o) => bindDimsCells ds (rngCells o) env
+  | .slc (some so) => bindDimsCells ds (slcDimCells so) env
+  | .rng none | .slc none => stopM (.crash "bound names of a nil range or slice parameter")
+  | _ => bindDimsArr ds l env
+
+/-- bind the parameters (converted to their declared scalar types) and, for array / range / slice
+parameters, the extent / bound names — innermost = last parameter -/
 def bindParams : List Param → List Loc → Env → M Env
   | [], _, env => pure env
   | _ :: _, [], _ => stuck "arity mismatch"
@@ -740,8 +963,7 @@ def bindParams : List Param → List Loc → Env → M Env
     let l' ← convCell p.ty l
     if p.dims.isEmpty then bindParams ps ls ((p.name, l') :: env)
     else do
-      let dims ← arrDims l'
-      let env2 ← bindDims p.dims dims ((p.name, l') :: env)
+      let env2 ← bindDimsOf p.dims l' ((p.name, l') :: env)
       bindParams ps ls env2
 
 def excMatches (c : Option Exc) (e : Exc) : Bool :=
@@ -770,12 +992,6 @@ def allocGroup (fs : List Func) (env : Env) : M Env := fun st =>
     let _ ← allocN fs.length (.clo none)
     fillFuncs (locs env') fs base
     pure env') st
-
-/-- bind names to cells in order (innermost = last); missing cells are cell 0 -/
-def bindNames : List Name → List Loc → Env → Env
-  | [], _, env => env
-  | x :: xs, [], env => bindNames xs [] ((x, 0) :: env)
-  | x :: xs, l :: ls, env => bindNames xs ls ((x, l) :: env)
 
 /-! ### the evaluator -/
 
@@ -840,6 +1056,15 @@ def evalE : Nat → Ctx → Env → Expr → M Loc
       | .clo (some (fid, cells)) => callClo f ctx fid cells ls
       | .clo none => throwE .nil_pointer
       | _ => stuck "call of a non-function"
+    | .pipe l fe args => do
+      let ls ← evalArgs f ctx env args
+      let ll ← evalE f ctx env l
+      let first ← pipeArgs ll
+      let lf ← evalE f ctx env fe
+      match (← load lf) with
+      | .clo (some (fid, cells)) => callClo f ctx fid cells (first ++ ls)
+      | .clo none => throwE .nil_pointer
+      | _ => stuck "call of a non-function"
     | .builtin b args => do
       let ls ← evalArgs f ctx env args
       let ls' ← convCells (builtinTys b) ls
@@ -894,6 +1119,8 @@ def evalE : Nat → Ctx → Env → Expr → M Loc
           | _ => stuck "tuple reference to a non-record"
         | [_], none => throwE .nil_pointer
         | _, _ => stuck "tuple index arity"
+      | .rng r => rangeDeref r is
+      | .slc r => sliceDeref r is
       | va => arrDeref va is
     | .record rn args => do
       let ls ← evalArgs f ctx env args
@@ -954,6 +1181,15 @@ def evalE : Nat → Ctx → Env → Expr → M Loc
       let o ← alloc (.arrObj [0] #[])
       evalQuals f ctx env quals body ty o
       alloc (.arr (some o))
+    | .range bounds => do
+      let ls ← evalArgs f ctx env bounds
+      let o ← alloc (.rngObj ls.toArray)
+      alloc (.rng (some o))
+    | .slice a bounds => do
+      let la ← evalE f ctx env a
+      let ls ← evalArgs f ctx env bounds
+      let rb ← alloc (.rngObj ls.toArray)
+      sliceOf (← load la) rb
 
 /-- arguments are evaluated RIGHT-TO-LEFT; result in source order -/
 def evalArgs : Nat → Ctx → Env → List Expr → M (List Loc)
@@ -1022,7 +1258,28 @@ def evalForIn : Nat → Ctx → Env → Name → Loc → Nat → Expr → M Loc
         else alloc (.int 0)
       | _ => stuck "array reference to a non-array"
     | .arr none => stopM (.crash "for-in over a nil array")
+    | .rng none | .slc none => throwE .nil_pointer
+    | .rng (some ro) => do
+      let r ← rngLoopInit ro
+      evalForRng f ctx env x none r.1 r.2.1 r.2.2 b
+    | .slc (some so) => do
+      let r ← slcLoopInit so
+      evalForRng f ctx env x r.1 r.2.1 r.2.2.1 r.2.2.2 b
     | _ => stuck "for-in over a non-array"
+
+/-- `for (x in [a..b]) body` / `for (x in s) body` (s a slice): the counter starts at `from`, moves towards `to`
+(direction fixed at the start), `to` is re-read before every iteration; `x` is bound to a FRESH int cell (range) or
+to the element cell of the underlying array (slice; out of the array: `index_out_of_bounds`) -/
+def evalForRng : Nat → Ctx → Env → Name → Option Loc → Int → Bool → Loc → Expr → M Loc
+  | 0, _, _, _, _, _, _, _, _ => oof
+  | f + 1, ctx, env, x, ao, cur, asc, lt, b => do
+    let t ← getInt lt
+    if inRange asc cur t then
+      let l ← rngElem ao cur
+      let _ ← evalE f ctx ((x, l) :: env) b
+      if inInt32 (stepRange asc cur) then evalForRng f ctx env x ao (stepRange asc cur) asc lt b
+      else stopM (.crash "range counter overflows int")
+    else alloc (.int 0)
 
 /-- call of a closure: parameters bound to the argument cells, body evaluated under the
 function's catch clauses, result converted to the declared return type -/
@@ -1111,7 +1368,26 @@ def evalGen : Nat → Ctx → Env → Name → Loc → Nat → List Qual → Exp
         else pure ()
       | _ => stuck "array reference to a non-array"
     | .arr none => stopM (.crash "generator over a nil array")
+    | .rng none | .slc none => throwE .nil_pointer
+    | .rng (some ro) => do
+      let r ← rngLoopInit ro
+      evalGenRng f ctx env x none r.1 r.2.1 r.2.2 qs body ty o
+    | .slc (some so) => do
+      let r ← slcLoopInit so
+      evalGenRng f ctx env x r.1 r.2.1 r.2.2.1 r.2.2.2 qs body ty o
     | _ => stuck "generator over a non-array"
+
+/-- a comprehension generator over a range or a slice (same loop as `evalForRng`) -/
+def evalGenRng : Nat → Ctx → Env → Name → Option Loc → Int → Bool → Loc → List Qual → Expr → Ty → Loc → M Unit
+  | 0, _, _, _, _, _, _, _, _, _, _, _ => oof
+  | f + 1, ctx, env, x, ao, cur, asc, lt, qs, body, ty, o => do
+    let t ← getInt lt
+    if inRange asc cur t then
+      let l ← rngElem ao cur
+      evalQuals f ctx ((x, l) :: env) qs body ty o
+      if inInt32 (stepRange asc cur) then evalGenRng f ctx env x ao (stepRange asc cur) asc lt qs body ty o
+      else stopM (.crash "range counter overflows int")
+    else pure ()
 end
 
 /-! ### programs -/
@@ -1127,10 +1403,11 @@ def collectE (bs : List Name) : Expr → List FunEntry
   | .for i c s b => collectE bs i ++ collectE bs c ++ collectE bs s ++ collectE bs b
   | .forIn x coll b => collectE bs coll ++ collectE (x :: bs) b
   | .call f args => collectEs bs args ++ collectE bs f
+  | .pipe l f args => collectEs bs args ++ collectE bs l ++ collectE bs f
   | .builtin _ args | .arrLit _ args _ | .arrNew args _ | .record _ args | .tuple args
-  | .enumRec _ _ args => collectEs bs args
+  | .enumRec _ _ args | .range args => collectEs bs args
   | .lam fn => collectF (if fn.name = "" then bs else fn.name :: bs) fn
-  | .index a idx => collectE bs a ++ collectEs bs idx
+  | .index a idx | .slice a idx => collectE bs a ++ collectEs bs idx
   | .field e _ => collectE bs e
   | .matchE e gs => collectE bs e ++ collectGuards bs gs
   | .ifLet g e els => collectE bs e ++ collectGuard bs g ++ collectE bs els
